@@ -18,6 +18,13 @@ def profile_for(tier):
 def build_set(chk, wsname, structs, profile):
     from . import oracle
     for s in structs:
+        # generator guard: everything handed to the explorers (except the BEYOND family) must be valid by the reference model
+        if s.family != 'BEYOND':
+            for f in s.fields:
+                rr = [(lo, lo + l - 1) for lo, l in f.ranges]
+                ty = {'b': 'bool', 'u': f"u{f.w}", 'n': f"u{f.w}", 'i': f"i{f.w}"}.get(f.kind, f"u{f.w}")
+                if not oracle.field_valid(s.n, 'bits', rr, ty, f.arr[0] if f.arr else None, f.arr[1] if (f.arr and f.stride_explicit) else None):
+                    raise B.MachineryError(f"generator: {wsname} contains a field that is invalid by the reference model: base u{s.n} {R.field_text(f)}")
         if s.has_builder and not oracle.builder_offered(s):
             raise B.MachineryError(f"generator: a struct of {wsname} expects a builder the reference model does not offer: {[f.ranges for f in s.fields]}")
     B.name_structs(structs, prefix=wsname.upper().replace('-', '_') + "_")
@@ -105,6 +112,9 @@ def c03(tier):
     sweep_check(chk, f"custom-{tier}", sets.custom_set(tier), 'all', prof, full_w=fw, oob=True,
                 families=['CUSTEXARR', 'CUSTOPTARR', 'CUSTNESTARR', 'CUSTEXNCARR', 'CUSTOPTNCARR', 'CUSTNESTNCARR'])
     chk.bounds.append("arrays whose elements are exhaustive enums, Option<enum> and nested bitfields (the array families of C08's set)")
+    acc = optional_accepted(chk, tier)
+    if acc:
+        sweep_check(chk, f"optional-{tier}", acc, 'all', prof, full_w=fw, oob=True)
     chk.bounds.append("ARR(N) for N<=16: every (lo, w, stride>=w, K>=2) that fits x kind, every element index, out-of-range indices "
                       "{K, K+1, 2K, W, floor(usize::MAX/stride)+1, usize::MAX} on get/with_/set_; wide: ARRB boundary family, bool arrays of every K")
     return chk.finish()
@@ -130,6 +140,11 @@ def c05(tier):
     sweep_check(chk, f"contig-{tier}", sets.contig_set(tier), 'all', prof, full_w=fw, kinds='i')
     sweep_check(chk, f"arr-{tier}", sets.arr_set(tier), 'all', prof, full_w=fw, kinds='i')
     sweep_check(chk, f"nc-{tier}", sets.nc_set(tier), 'all', prof, full_w=fw, kinds='i')
+    bs = sets.signed_builder_structs()
+    wsb = build_set(chk, "signedbld", bs, prof)
+    if wsb:
+        chk.add_report(B.run(wsb, prof, 'builder', ['--full-w', 8, '--cap', 65536], out_name=f"report-C05-builder-{prof}.json"), f"builder:signed:{prof}")
+    chk.bounds.append("signed fields written through the builder (arrays, scalars, multi-range; with and without default)")
     chk.bounds.append("iN fields: dedicated SIGNED machines (every position on N<=24, boundary positions above; arrays; multi-range) "
                       "plus the signed members of the CONTIG/ARR/NC families; all 2^8 patterns for i8 (thorough: all 2^16 for i16), AV otherwise")
     return chk.finish()
@@ -490,4 +505,24 @@ def beyond_accepted(chk, tier):
     chk.extra["beyond_declarations_accepted"] = len(acc)
     chk.bounds.append(f"BEYOND family: {len(structs)} declarations addressing bits at or above the declared width (bool/uN/iN at N, straddling N-1, arrays and range lists reaching N, beyond the storage) "
                       "are compiled; every one the compiler accepts is explored like a valid layout")
+    return acc
+
+
+def optional_accepted(chk, tier):
+    """compile every OPTIONAL declaration on its own; return the structs rustc accepts"""
+    from . import declmc as D
+    structs = sets.optional_structs(tier)
+    B.name_structs(structs, prefix="OPT_")
+    arts = D.carrier()
+    items = [D.Item(j, R.struct_decl(s)) for j, s in enumerate(structs)]
+    errs, unatt = D.compile_items(arts, items, f"optional-{chk.pid}", emit="metadata", nshards=16)
+    if unatt:
+        raise B.MachineryError(f"OPTIONAL: unattributed diagnostics: {unatt[:3]}")
+    acc = [s for j, s in enumerate(structs) if j not in errs]
+    chk.programs += len(structs)
+    chk.transitions += len(structs)
+    chk.extra["optional_spellings_probed"] = len(structs)
+    chk.extra["optional_spellings_accepted"] = len(acc)
+    chk.bounds.append(f"OPTIONAL family: {len(structs)} array / scalar declarations whose attribute arguments come in another order than `range, access, stride` "
+                      "(not promised by the documentation): each is compiled on its own; the accepted ones are explored like any other layout, the rejected ones are no finding")
     return acc
